@@ -98,6 +98,10 @@ def check(ctx):
                 ctx.ob("N1.no-constant-name", c, f"{rel}: {call_name(c)}(..., name={unparse(nm)[:50]}) is not a constant", not const_, "" if not const_ else "every result of this routine has the same keys: two of them in one graph overwrite each other (use token= for a name prefix)", nontrivial=False)
     ctx.count("explicit_output_names", n_nm)
     ctx.floor("explicit_output_names", 4)
+    # ---------------- masked arrays: the token covers the data UNDER the mask too (getdata / re-masking can expose it)
+    nma = ctx.model.module("dask/array/ma.py").func("normalize_masked_array")
+    ok = bool(find("data = normalize_token(x.data)", nma)) and bool(find("mask = normalize_token(x.mask)", nma)) and bool(find("fill_value = normalize_token(x.fill_value)", nma)) and any(eqv(r.value, "(data, mask, fill_value)") for r in returns(nma))
+    ctx.ob("INJ.masked-array.data", nma, "normalize_masked_array = (token of x.data, token of x.mask, token of x.fill_value)", ok, "" if ok else "hashing x.filled() ignores what lies under the mask: two masked arrays that differ there share a from_array name, and getdata()/a narrower mask returns the other one's values when both are in one graph")
 
 
 def key_inputs(ctx, only=None, floor=80, prefix=None):
